@@ -235,6 +235,10 @@ func suiteConvertStyledTtx(R *runner, r *rng) {
 			d := append([]byte{0x10}, hdr()...)
 			for k, nr := 0, 1+r.intn(3); k < nr; k++ {
 				cells := ttxStyledRow(r)
+				if c == 0 && i == 0 && k == 0 {
+					// the row of the Coq example (Proofs/ConvTtxExamples.v): words separated by attribute cells only
+					cells = []byte("\x0b\x0bHello\x01red\x07 white  \x0a")
+				}
 				human = append(human, fmt.Sprintf("%q", cells))
 				d = append(d, rowPacket(8, k+1, cells)...)
 			}
@@ -274,6 +278,9 @@ func suiteConvertStyledTtx(R *runner, r *rng) {
 				R.count("styled.ts->" + dst.name + ".writer_error")
 			default:
 				o.Impl = (&enc{}).n(0).bytes(out.Bytes()).String()
+				if ls := strings.Split(out.String(), "\n"); c == 0 && dst.name == "srt" && len(ls) > 2 {
+					R.note(fmt.Sprintf("observation (inside C07's inter-run white-space tolerance): page row %q through OpenFile + WriteToSRT gives the text line %q (the reader trims run texts, the writer puts runs side by side)", "\x0b\x0bHello\x01red\x07 white  \x0a", ls[2]))
+				}
 			}
 			R.add(o)
 		}
